@@ -23,6 +23,20 @@ CHECKS = {
  'C20': ('interprocedural ownership/effect analysis to a fixpoint over the resolved call graph (tables, default callables, partials)',
          'Decides for every function in Network/, Circuit/, SignalProcessing/, dump_load.py that no path writes to a parameter-owned object, mutable default, module global or (outside construction) self, and that no caching decorator exists; a built-in positive example must be reported on every run. Equality of results between histories is implied, not observed.', '4/C20'),
 }
+CHECKS.update({
+ 'C01': ('index-space typing (abstract interpretation of the numpy assembly / read-back), incidence sign table and sign relations, E1 normal forms of current recovery',
+         'Decides that every index, slice, product, stack and solve of the MNA path joins equal label spaces for every label set, that the system is laid out (N+V), the incidence sign conventions and their relations to the read-back signs, and the per-kind branch-current formulas. Exactness / uniqueness of the numeric solve is not decided.', '4/C01'),
+ 'C03': ('index-space typing over steady-state, state-space, transient and port code; terminal antisymmetry; no literal reference label',
+         'Static form of renaming/permutation invariance: a position may depend on labels or listing order only through one map used on both sides; 280+ join obligations must hold for every label set (not just the suite\'s naming scheme). Floating-point summation order and the relation between two actual runs are not decided.', '4/C03'),
+ 'C06': ('def-use typestate of the inverted matrix, index-space typing through pruning, early-return shape, E1 formulas, import binding',
+         'Decides that the inverted matrix has its ideal voltage sources shorted, that the node is located in the pruned layout of the same re-referenced network, the early returns / swap / terminal wiring, and the Thevenin / Norton / short-circuit formulas. Numerical symmetry and composition laws are not decided.', '4/C06'),
+ 'C10': ('index-space typing of builder, accessors and wrapper; non-commutative matrix normal forms vs the MNA derivation; builder wiring; mirrored accessors',
+         'Decides that state order, source order and output-row addressing agree for every naming / listing order, that A, B, C, D normalise to the formulas derived from the MNA system (symmetric A~), and the argument wiring. Equality of transfer functions for actual values and conditioning are not decided.', '4/C10'),
+ 'C11': ('structural prerequisites only: sign and order of Lambda, reciprocal, left multiplication, zero initial state',
+         'Decides only necessary conditions (Lambda = diag(-C, +L) in state order, A = Lambda^-1 S, simulation from rest). The property\'s main clause -- definiteness of W A + A^T W, eigenvalue location, bounded energy -- quantifies over run-time values and is NOT decided.', '4/C11'),
+ 'C12': ('index-space typing of TransientSolution, E1 wiring of model construction, solver arguments and output-row pairing',
+         'Decides that the model is built at w=0 from the circuit\'s own C/L values in listing order, inputs follow the published source order (= columns of B), the solver receives (A,B,I,0), u^T, tin, zero state, and each getter pairs c_row_Q with d_row_Q for the same id. Accuracy of lsim and the differential relations per sample are not decided.', '4/C12'),
+})
 NOT_YET = {}
 ALL = [f'C{i:02d}' for i in range(1, 21)]
 NA_REASON = 'checker not built yet in this session (planned in DESIGN.md section 4); no claim is made'
@@ -35,6 +49,8 @@ man = {
   {'name': 'E0 program model', 'path': 'cc/prog.py', 'serves_properties': ALL, 'kind_free_text': 'ast-based import/alias/class/table resolution'},
   {'name': 'E1 terms', 'path': 'cc/terms.py', 'serves_properties': ['C01','C02','C04','C05','C06','C07','C08','C09','C13','C14','C16','C17','C18','C19'], 'kind_free_text': 'use-def expanded terms, ring normal form, guard decision trees, sign facts'},
   {'name': 'E2 paths', 'path': 'cc/paths.py', 'serves_properties': ['C19','C06','C18'], 'kind_free_text': 'structured path enumeration, must-pass-through'},
+  {'name': 'E4 index spaces', 'path': 'cc/spaces.py', 'serves_properties': ['C01','C03','C06','C10','C11','C12'], 'kind_free_text': 'abstract interpretation of numpy idioms with label spaces per axis'},
+  {'name': 'E1(nc) matrix normal forms', 'path': 'cc/ncalg.py', 'serves_properties': ['C10','C11'], 'kind_free_text': 'non-commutative normal forms with transposes / inverses'},
   {'name': 'E3 effects', 'path': 'cc/effects.py', 'serves_properties': ['C16','C17','C20'], 'kind_free_text': 'ownership/effect analysis with interprocedural summaries'},
  ],
  'checks': [], 'not_applicable': [],
